@@ -17,11 +17,29 @@
             ml    multi-line message?
             ga    prints a group attribute?
    ResetBySet: the fields re-initialised for every record (constant: what set()/setentry() do).
-   The property holds iff every field a path reads was written earlier in the same record.         *)
+   The property holds iff every field a path reads was written earlier in the same record.
+
+   "A FUNCTION of that call alone" also means: the same call has ONE result.  The one member of a
+   record that is computed from process-global tables is the caller's file name (path hardening,
+   property C18): the table holds $HOME -> "~" and start directory -> "." from process start, and
+   in the process environment "nested" - the program runs from a directory below $HOME, the
+   usual case of go run / go test - both cover the call site's file.  env is that environment
+   (chosen at start, never changes); FileForms(env) the forms the file name may take for ONE call:
+            CallerFile = "function"   one form whatever the environment (the innermost directory
+                                      is replaced)
+            CallerFile = "maporder"   the table is folded in map iteration order: in the nested
+                                      environment the file comes out as ./x.go or as ~/proj/x.go,
+                                      from one call to the next (what library revision ed9a368 does)
+   The caller's FUNCTION name is rewritten the same way from the table of code hosting providers
+   ("github.com" -> "GH"; coloured records, flag Lcallerpackagename): environment "providers" - the
+   program registered a provider below a built-in one ("github.com/acme"), so two entries match the
+   name of the call site's function.  The same constant describes both tables.
+   FunctionOfCall: every probe has exactly one observation, in every environment.                  *)
 EXTENDS Integers, Sequences, FiniteSets, TLC
 
 CONSTANTS ResetBySet,     \* subset of Fields re-initialised at the start of every record
-          MaxHist         \* history length explored
+          MaxHist,        \* history length explored
+          CallerFile      \* "function" | "maporder": how the caller's file name is hardened
 
 Fields == {"clr", "bg", "rest", "eol", "prefix", "grp", "src"}
 Fmts == {"logfmt", "json", "color"}
@@ -29,7 +47,13 @@ Cols == {"fgbg", "fg", "none"}
 Classes == [fmt : Fmts, col : Cols, ml : BOOLEAN, ga : BOOLEAN]
 
 VARIABLES res,     \* res[f]: abstract value left in field f ("init" in a fresh object)
-          hist     \* classes formatted so far (bounded)
+          hist,    \* classes formatted so far (bounded)
+          env      \* process environment: "flat" | "nested" (default protected directories nested above the call
+                   \* site) | "providers" (overlapping hosting providers match the call site's function name)
+
+Envs == {"flat", "nested", "providers"}
+\* the forms the caller's file / function name of one and the same call may take
+FileForms(e) == IF CallerFile = "maporder" /\ e \in {"nested", "providers"} THEN {"inner-short-form", "outer-short-form"} ELSE {"inner-short-form"}
 
 Fresh == [f \in Fields |-> "init"]
 
@@ -54,16 +78,24 @@ Seen(r, c) == [f \in Reads(c) |-> IF Writes(c, f) # {} /\ f \in {"clr", "bg"} TH
 
 After(r, c) == [f \in Fields |-> IF Writes(c, f) # {} THEN CHOOSE v \in Writes(c, f) : TRUE ELSE AtStart(r, f)]
 
-Init == res = Fresh /\ hist = <<>>
+\* everything a probe of class p shows of the state it starts from and of the environment: a SET (one
+\* element per result the same call may have)
+Obs(r, p, e) == {[seen |-> Seen(r, p), file |-> f] : f \in FileForms(e)}
+
+Init == res = Fresh /\ hist = <<>> /\ env \in Envs
 Record(c) == /\ Len(hist) < MaxHist
              /\ res' = After(res, c)
              /\ hist' = Append(hist, c)
+             /\ env' = env
 Next == \E c \in Classes : Record(c)
-Spec == Init /\ [][Next]_<<res, hist>>
+Spec == Init /\ [][Next]_<<res, hist, env>>
 
 \* C09: whatever was formatted before, every probe sees what it would see on a fresh object
 HistoryIndependent == \A p \in Classes : Seen(res, p) = Seen(Fresh, p)
 
+\* C09, "a function of that call alone": one observation per probe, the one of a fresh object
+FunctionOfCall == \A p \in Classes : Obs(res, p, env) = Obs(Fresh, p, env) /\ Cardinality(Obs(res, p, env)) = 1
+
 \* the residual state as a view (histories leading to the same residual state are equivalent)
-View == res
+View == <<res, env>>
 =============================================================================
